@@ -135,11 +135,13 @@ def bounded(tier, seed):
     # quotes that span a paragraph break (two newlines with any whitespace between them) are never a pair
     for ws in ("", " ", "\t", "\r", "\x0c", "\x0b", "\u00a0", "\u3000", " \r", "\u2028"):
         for q in ('"', "'"):
-            s = "He said %sone\n%s\ntwo%s ok." % (q, ws, q)
-            r = smart_quotes(s)
-            evals += 1
-            if not Q(s, r) or not paired_within_paragraphs(s, r):
-                viol.append({"clause": "paired_within_paragraph", "input": {"text": s}, "got": r})
+            # ... the break in the middle of the quoted text, directly after the opening quote, directly before the closing one
+            for s in ("He said %sone\n%s\ntwo%s ok." % (q, ws, q), "He wrote %s\n%s\nSecond paragraph%s and left." % (q, ws, q),
+                      "He wrote %sfirst paragraph\n%s\n%s and left." % (q, ws, q), "%s\n%s\nx%s" % (q, ws, q), "%sx\n%s\n%s" % (q, ws, q)):
+                r = smart_quotes(s)
+                evals += 1
+                if not Q(s, r) or not paired_within_paragraphs(s, r):
+                    viol.append({"clause": "paired_within_paragraph", "input": {"text": s}, "got": r})
     # document level: on vs off
     docs = D.documents(seed, 80 if tier == "quick" else 600, hazards=False)
     docs += ["He said \"it's `a \"q\" b` fine\" and 'x'.\n", "\"a\" <span title=\"t\"> [l](http://x \"T\") \\\"esc\\\" {% t a=\"b\" %} <!-- \"c\" -->\n",
